@@ -10,7 +10,7 @@ from . import c09
 from .c09 import read_q, same
 
 EVIDENCE = dict(
-    bounds="all parameters, calibrated scales and the input symbolic; modules Linear(3,2), Linear(160,1) (grouped int2/int4), Conv2d(1,2,2), LayerNorm+Linear, MLP, nested containers; six weight qtypes; activations None/qint8 (+qfloat8 thorough); float32 (+float16/bfloat16 thorough); frozen and unfrozen; targets: default-quantized, same-quantized, requantize(); save/load cycles <= 2 (quick) / 3 (thorough); byte-level serializers (pickle, weights_only, safetensors) executed concretely on the seed",
+    bounds="all parameters, calibrated scales and the input symbolic; modules Linear(3,2), Linear(160,1) (grouped int2/int4), Conv2d(1,2,2), LayerNorm+Linear, MLP, nested containers; six weight qtypes; activations None/qint8 (+qfloat8 thorough); float32 (+float16/bfloat16 thorough); frozen and unfrozen; targets: default-quantized, same-quantized, same-quantized-and-already-frozen, requantize(); save/load cycles <= 2 (quick) / 3 (thorough); byte-level serializers (pickle, weights_only, safetensors) executed concretely on the seed",
     outside="file-format internals of pickle/safetensors (identity stub inside the symbolic run, executed concretely on the seed); devices other than CPU; architectures beyond the enumerated ones",
     assumptions=[
         "ALG term identity = bit-identical for every value of the symbolic parameters, scales and inputs",
@@ -166,7 +166,7 @@ def scenario(kind, dt, qtype, act, frozen, cycles, x, read, sym_hook=None, strea
         probs.append(f"state_dict values that are neither plain tensors nor str: {bad_types[:4]}")
     cur_sd = sd
     for cyc in range(cycles):
-        for target in ("default", "same", "requantize"):
+        for target in ("default", "same", "requantize") + (("same-frozen",) if frozen else ()):
             tgt, _ = models.make(kind, dt, seed=99 + cyc)
             try:
                 sd_in = dict(cur_sd)
@@ -183,6 +183,11 @@ def scenario(kind, dt, qtype, act, frozen, cycles, x, read, sym_hook=None, strea
                         tgt.eval()
                         with torch.no_grad():
                             tgt(x)
+                    tgt.load_state_dict(sd_in)
+                elif target == "same-frozen":
+                    # a target that is already frozen (with its own, different weights), e.g. a second checkpoint loaded into a served model
+                    quantize(tgt, weights=q_t, activations=a_t)
+                    freeze(tgt)
                     tgt.load_state_dict(sd_in)
                 else:
                     requantize(tgt, sd_in)
